@@ -243,6 +243,14 @@ WITNESSES = [
     ([EV_A, EV_0], {"id": 5, "-type": "a.Ev"}, 0, "full-name -type hint selects the namespaced record"),
     ([EV_A, "null"], {"id": 5, "-type": "Ev"}, None, "short-name -type hint with only a namespaced record is an error"),
     ([EN_A, EN_0, "string"], ("En", "A"), 1, "short-name tuple hint selects the null-namespace enum"),
+    # a type KEYWORD is not the label of a named branch; Python type names are not labels of unnamed branches
+    ([EV_0, "null"], ("record", {"id": 5}), None, "tuple hint 'record' is an error"),
+    ([EN_0, "string"], ("enum", "A"), None, "tuple hint 'enum' is an error"),
+    ([{"type": "fixed", "name": "Fx", "size": 2}, "bytes"], ("fixed", b"ab"), None, "tuple hint 'fixed' is an error"),
+    ([{"type": "array", "items": "int"}, "null"], ("array", [1]), 0, "tuple hint 'array' selects the array branch"),
+    ([{"type": "array", "items": "int"}, {"type": "map", "values": "int"}, "string"], ("list", [1]), None, "tuple hint 'list' is an error"),
+    ([{"type": "array", "items": "int"}, {"type": "map", "values": "int"}, "string"], ("dict", {"a": 1}), None, "tuple hint 'dict' is an error"),
+    (["string", "int"], ("str", "x"), None, "tuple hint 'str' is an error"),
     ([{"type": "fixed", "name": "b.c.Fx", "size": 2}, {"type": "fixed", "name": "Fx", "size": 2}], ("Fx", b"ab"), 1,
      "short-name tuple hint selects the null-namespace fixed"),
     ([A, B, "float", "string", {"type": "double"}], {"x": 1}, 0, "tie: first record"),
